@@ -592,8 +592,8 @@ func c02Lookup(c *Ctx, ix *idxEngine, at *types.Named, rows, cells, nCols, cols 
 	// CellAt returns
 	p := ix.proverFor(cellAt)
 	loc := cellAt.Params[1]
-	for i, ret := range returnsOf(cellAt) {
-		rv := results(ret)
+	for _, rc := range returnCases(cellAt) {
+		i, ret, rv := rc.N-1, rc.Ret, rc.Vals
 		ptrNil, errNil := isNil(rv[0]), isNil(rv[1])
 		r.Check("R02.4", FuncName(cellAt), fmt.Sprintf("return #%d: nil cell iff non-nil error", i+1), ret.Pos(), ptrNil != errNil, "")
 		if !ptrNil {
